@@ -24,11 +24,11 @@ def expected_file_header(cfg, f):
         t = f"{lbl(d['lblRenamed'])}{old} {arrow} {new}"
     elif k == "copied":
         t = f"{lbl(d['lblCopied'])}{old} {arrow} {new}"
-    elif k in ("added", "empty_added"):
+    elif k in ("added", "empty_added", "submodule_added"):
         t = f"{lbl(d['lblAdded'])}{new}"
     elif k == "binary_added":
         t = f"{lbl(d['lblAdded'])}{new} (binary file)"
-    elif k == "deleted":
+    elif k in ("deleted", "submodule_deleted"):
         t = f"{lbl(d['lblRemoved'])}{old}"
     elif k == "binary":
         t = f"{lbl(d['lblModified'])}{new} (binary file)"
